@@ -17,6 +17,8 @@ CONSTANTS Clients, Workers,   \* Workers = thread identities the pool may ever c
           WaitsFor,           \* WaitsFor[i] = item whose completion i's body blocks on, or NULL
           PoolSize,           \* initial dgq_thread_pool_size (thread budget)
           MaxTids,            \* WORKQ_MAX_TRACKED_TIDS - target_runnable: how far below 0 the monitor may push the budget
+          MaxMon,             \* bound on the number of monitor ticks explored; 0 = unbounded (the real timer fires at 1 Hz forever)
+          SemCap,             \* the mediator semaphore's value saturates here (sound: surplus permits only cause empty drain passes)
           Mut
 NULL == "null"
 MED == "MEDIATOR"
@@ -28,8 +30,8 @@ VARIABLES head, tail, nxt,     \* dq_items_head / dq_items_tail / do_next
           sem,                 \* dpq_thread_mediator: permits (>= 0); parked workers wait for one
           ws,                  \* per worker: "none" | "live" | "parked" | "exited"
           pc, lv, ip,
-          popped, done, running
-vars == <<head, tail, nxt, pending, pool, sem, ws, pc, lv, ip, popped, done, running>>
+          popped, done, running, monFires
+vars == <<head, tail, nxt, pending, pool, sem, ws, pc, lv, ip, popped, done, running, monFires>>
 
 L0 == [item |-> NULL, prev |-> NULL, hd |-> NULL, n |-> NULL, rem |-> 0, floor |-> 0, t |-> 0, ret |-> "idle", why |-> "none"]
 Init == /\ head = NULL /\ tail = NULL /\ nxt = [i \in Items |-> NULL]
@@ -37,12 +39,12 @@ Init == /\ head = NULL /\ tail = NULL /\ nxt = [i \in Items |-> NULL]
         /\ ws = [w \in Workers |-> "none"]
         /\ pc = [t \in Threads |-> "idle"] /\ lv = [t \in Threads |-> L0]
         /\ ip = [c \in Clients |-> 1]
-        /\ popped = [i \in Items |-> 0] /\ done = {} /\ running = {}
+        /\ popped = [i \in Items |-> 0] /\ done = {} /\ running = {} /\ monFires = 0
 Go(t, l) == pc' = [pc EXCEPT ![t] = l]
 SetL(t, f, v) == lv' = [lv EXCEPT ![t][f] = v]
 MP == <<head, tail, nxt>>
 PL == <<pending, pool, sem, ws>>
-GH == <<popped, done, running>>
+GH == <<popped, done, running, monFires>>
 
 (* ---------------- _dispatch_root_queue_push_inline: os_mpsc_push_list ---------------- *)
 Start(c) == /\ c \in Clients /\ pc[c] = "idle" /\ ip[c] <= Len(Prog[c])
@@ -70,7 +72,7 @@ PokeSem(t) ==
          THEN \E w \in {x \in Workers : ws[x] = "parked" /\ pc[x] = "parked"} :   \* a sleeping worker takes the permit
                  /\ ws' = [ws EXCEPT ![w] = "live"] /\ pc' = [pc EXCEPT ![w] = "drain_start", ![t] = IF lv[t].rem = 1 THEN lv[t].ret ELSE "poke_sem"]
                  /\ lv' = [lv EXCEPT ![t].rem = @ - 1] /\ sem' = sem
-         ELSE /\ sem' = sem + 1 /\ Go(t, "poke_pending") /\ UNCHANGED <<ws, lv>>    \* nobody waiting: the signal leaves a permit, returns 0
+         ELSE /\ sem' = (IF sem < SemCap THEN sem + 1 ELSE sem) /\ Go(t, "poke_pending") /\ UNCHANGED <<ws, lv>>    \* nobody waiting: the signal leaves a permit, returns 0
     /\ UNCHANGED <<MP, pending, pool, ip, GH>>
 \* non-overcommit: if (!cmpxchg(dgq_pending, 0, remaining)) return;
 PokePending(t) == /\ pc[t] = "poke_pending"
@@ -155,12 +157,12 @@ DStoreNext(w) == /\ pc[w] = "d_store_next" /\ head' = lv[w].n
                  /\ UNCHANGED <<tail, nxt, PL, ip, GH>>
 \* the popped item runs on this worker; its body may block until another item has finished
 Invoke(w) == /\ pc[w] = "invoke"
-             /\ popped' = [popped EXCEPT ![lv[w].hd] = @ + 1] /\ running' = running \cup {lv[w].hd} /\ done' = done
+             /\ popped' = [popped EXCEPT ![lv[w].hd] = @ + 1] /\ running' = running \cup {lv[w].hd} /\ done' = done /\ monFires' = monFires
              /\ Go(w, "in_item")
              /\ UNCHANGED <<MP, PL, lv, ip>>
 ItemEnd(w) == /\ pc[w] = "in_item"
               /\ (WaitsFor[lv[w].hd] = NULL \/ WaitsFor[lv[w].hd] \in done)
-              /\ running' = running \ {lv[w].hd} /\ done' = done \cup {lv[w].hd} /\ popped' = popped
+              /\ running' = running \ {lv[w].hd} /\ done' = done \cup {lv[w].hd} /\ popped' = popped /\ monFires' = monFires
               /\ Go(w, "drain_start") /\ lv' = [lv EXCEPT ![w].ret = "drain_start"]
               /\ UNCHANGED <<MP, PL, ip>>
 \* dispatch_semaphore_wait(&mediator, 5 s): a left-over permit is taken at once, else park
@@ -179,12 +181,13 @@ Exit(w) == /\ pc[w] = "exit" /\ ws' = [ws EXCEPT ![w] = "none"] /\ Go(w, "idle")
 (* ---------------- _dispatch_workq_monitor_pools (manager queue timer, 1 Hz) ---------------- *)
 \* runnable = registered workers in scheduler state R: here, live workers that are not blocked inside an item
 Runnable(w) == ws[w] = "live" /\ ~(pc[w] = "in_item" /\ WaitsFor[lv[w].hd] # NULL /\ WaitsFor[lv[w].hd] \notin done)
-Monitor == /\ pc[MON] = "idle" /\ Mut # "no_monitor"
-           /\ tail # NULL                                          \* _dispatch_queue_class_probe
-           /\ ~\E w \in Workers : Runnable(w)                      \* num_runnable == 0
+MonitorCond == /\ tail # NULL                                      \* _dispatch_queue_class_probe
+               /\ ~\E w \in Workers : Runnable(w)                  \* num_runnable == 0
+Monitor == /\ pc[MON] = "idle" /\ Mut # "no_monitor" /\ (MaxMon = 0 \/ monFires < MaxMon)
+           /\ MonitorCond
            /\ lv' = [lv EXCEPT ![MON] = [L0 EXCEPT !.rem = 1, !.floor = -MaxTids, !.ret = "idle"]]
-           /\ Go(MON, "poke_probe")
-           /\ UNCHANGED <<MP, PL, ip, GH>>
+           /\ Go(MON, "poke_probe") /\ monFires' = (IF MaxMon = 0 THEN 0 ELSE monFires + 1)
+           /\ UNCHANGED <<MP, PL, ip, popped, done, running>>
 
 Poke(t) == PokeProbe(t) \/ PokeSem(t) \/ PokePending(t) \/ PokeLoad(t) \/ PokeClamp(t) \/ PokeCas(t) \/ PokeCreate(t)
 ClientStep(c) == Start(c) \/ Return(c) \/ PushTail(c) \/ PushPrev(c) \/ Poke(c)
@@ -207,7 +210,7 @@ AllPushed == \A c \in Clients : ip[c] > Len(Prog[c])
 Settled == /\ \A c \in Clients : pc[c] = "idle"
            /\ \A w \in Workers : pc[w] \in {"idle", "parked"} \/ (pc[w] = "in_item" /\ ~Runnable(w))
            /\ pc[MON] = "idle"
-NoStrand == (Settled /\ AllPushed /\ ~ENABLED Monitor) => (tail = NULL \/ \E w \in Workers : pc[w] = "in_item")
+NoStrand == (Settled /\ AllPushed /\ (~MonitorCond \/ Mut = "no_monitor")) => tail = NULL
 \* C01, last clause: every pushed item runs, however the pool threads block on later items
 Live == <>(done = Items)
 =============================================================================
